@@ -417,6 +417,20 @@ def group_search_async(
 
         # Update/create ArchiveFileCopy to force a check.
 
+        # The I/O layer may report a file as existing when it merely failed
+        # to find out (e.g. a failed "lfs hsm_state" on a Lustre HSM node).
+        # Don't let that take the worker (and with it the daemon) down: skip
+        # the request this time; it stays pending and is looked at again on
+        # the next update.
+        try:
+            size_b = node.io.filesize(req.file.path, actual=True)
+        except OSError as e:
+            log.warning(
+                f"Unable to stat {req.file.path} on node {node.name}: {e}.  "
+                "Skipping pull request for now."
+            )
+            return
+
         # ready == False is the safe option here: copy will be readied
         # during the subsequent check if needed.
         try:
@@ -427,7 +441,7 @@ def group_search_async(
                 has_file="M",
                 wants_file="Y",
                 ready=False,
-                size_b=node.io.filesize(req.file.path, actual=True),
+                size_b=size_b,
             )
         except pw.IntegrityError:
             # Copy already exists, just update the existing
